@@ -83,10 +83,27 @@ def b_add(g, W, sz):
     return _finish(lines, dumps), dict(shape=(nr, nc), kinds=(ka, kb), alias=alias, width=(nc + 63) // 64)
 
 
+TR_FORCE = None       # set by an engine: (nrows, ncols) of the next transpose cases
+_tr_count = [0]
+_TR_SPECIAL = [0, 1, 7, 8, 9, 15, 16, 17, 31, 32, 33, 63]
+
+
 @op("transpose", "C08", ["D", "A"])
 def b_transpose(g, W, sz):
-    cls = g.rng.choice(["small", "small", "mid", "big"])
-    if cls == "small":
+    cls = g.rng.choice(["small", "small", "mid", "big", "residue", "residue"])
+    if TR_FORCE is not None:
+        cls, (nr, nc) = "forced", TR_FORCE
+    elif cls == "residue":
+        # the kernels are chosen by the residues of both dimensions mod 64 (le8 / le16 / le32 / le64 tails, fewer than 64
+        # rows or columns, lookup table per residue): one residue walks through 0..63, the other takes the boundaries
+        _tr_count[0] += 1
+        r1 = _tr_count[0] % 64
+        r2 = g.rng.choice(_TR_SPECIAL + [g.rng.randrange(64)])
+        a, b = g.rng.choice([0, 1, 1, 2]), g.rng.choice([0, 1, 1, 2])
+        nr, nc = max(1, 64 * a + r1), max(1, 64 * b + r2)
+        if g.rng.random() < 0.5:
+            nr, nc = nc, nr
+    elif cls == "small":
         nr, nc = g.dim(min(sz, 70)), g.dim(min(sz, 70))
     elif cls == "mid":
         nr, nc = g.dim(sz), g.dim(sz)
@@ -340,7 +357,20 @@ _pair("cmp")
 @op("is_zero", "C17", ["A"])
 def b_is_zero(g, W, sz):
     nr, nc = g.dim(sz), g.dim(sz * 2)
-    ra, ka = g.rows(nr, nc, g.rng.choice(["zero", "zero", "single", "lastcol", "sparse"]))
+    ra, ka = g.rows(nr, nc, g.rng.choice(["zero", "zero", "single", "lastcol", "sparse", "period64", "period64"]))
+    if ka == "period64":
+        # content repeating with period 64 within a row (two or more equal word-aligned copies, the rest zero): sums
+        # and parities of the words of a row vanish although the row does not
+        nc = max(nc, 129 + g.rng.randrange(200))
+        ra = []
+        for _ in range(nr):
+            blk = g.rng.choice([0, 1 << g.rng.randrange(64), g.rng.getrandbits(64)])
+            reps = g.rng.choice([2, 2, 4, 3])
+            off = 64 * g.rng.randrange(0, max(1, nc // 64 - reps + 1))
+            v = 0
+            for t in range(reps):
+                v |= blk << (off + 64 * t)
+            ra.append(v & ((1 << nc) - 1))
     la, da = g.operand("A", nr, nc, ra, W("A"))
     return _finish(la + ["call is_zero A"], da), dict(shape=(nr, nc), kinds=(ka,))
 
@@ -409,7 +439,15 @@ def _combine_case(g, W, three):
     meta = dict(shape=(nra, nca), kinds=(ka, kb), width=wa, startwords=(asb, bsb), words_left=wa - asb)
     if not three:
         return _finish(la + lb + ["call combine_even_in_place A %d %d B %d %d" % (ar, asb, br, bsb)], da + db), meta
-    form = r.choice(["inplace", "inplace", "three", "three", "three", "same-other-row"])
+    form = r.choice(["inplace", "inplace", "three", "three", "three", "same-other-row", "same-row-shifted", "same-row-shifted"])
+    if form == "same-row-shifted" and asb >= 1:
+        # C == A, same row, destination start word BELOW the source start word (overlapping segments of one row, written
+        # front to back): the three-operand kernel; b start word equal to a's or not
+        csb = r.randrange(asb)
+        bsb2 = r.choice([asb, asb, bsb])
+        if ncb < 64 * bsb2 + n:
+            bsb2 = bsb
+        return _finish(la + lb + ["call combine A %d %d A %d %d B %d %d" % (ar, csb, ar, asb, br, bsb2)], da + db), dict(meta, form=form, startwords=(asb, bsb2), cstart=csb)
     if form == "inplace":          # C == A, same row, same start word: dispatches to the in-place kernel
         return _finish(la + lb + ["call combine A %d %d A %d %d B %d %d" % (ar, asb, ar, asb, br, bsb)], da + db), dict(meta, form=form)
     if form == "same-other-row" and nra > 1:   # C == A but another row: the three-operand kernel on one object
@@ -440,7 +478,20 @@ def _mul_shapes(g, sz, route):
     r = g.rng
     m, l, n = g.dim(sz), g.dim(sz), g.dim(sz)
     c = r.random()
-    if route in ("mul", "addmul", "mul_mp", "addmul_mp") and c > 0.6:
+    if route in ("mul", "addmul", "mul_mp", "addmul_mp") and c > 0.95:
+        # two or more halvings with ONE thin dimension (the split granularity is a multiple of 64 that doubles per level and
+        # must not exceed any of the three dimensions): independent of sz, cheap (one dimension stays small)
+        big = lambda: r.choice([260, 300, 384, 511, 512, 600])
+        thin = lambda: r.choice([128, 130, 191, 200, 255])
+        m, l, n = big(), big(), big()
+        which = r.choice(["l", "l", "m", "n"])
+        if which == "l":
+            l = thin()
+        elif which == "m":
+            m = thin()
+        else:
+            n = thin()
+    elif route in ("mul", "addmul", "mul_mp", "addmul_mp") and c > 0.6:
         # Strassen split limits: for cutoff c the recursion is entered when all dimensions are >= 4c/3;
         # with c = 64 a dimension in [86, 127] is then too small to be split on a word boundary
         grid = [85, 86, 100, 127, 128, 129, 171, 192, 255, 256, 257]
@@ -543,6 +594,22 @@ def b_mul_va(g, W, sz):
     return _finish(la + lb + lc + ["call mul_va - C A B %d" % clear], da + db + dc), dict(shape=(m, l, n), clear=clear)
 
 
+@op("_mul_naive", "C01", ["C", "A", "B"])
+def b__mul_naive(g, W, sz):
+    """_mzd_mul_naive(C, A, Bt, clear): the documented kernel on a pre-transposed second factor, any width of C (the
+    public wrappers only reach it with fewer than 54 columns)"""
+    m, l = g.dim(sz), g.dim(sz)
+    n = g.rng.choice([g.dim(sz), g.dim(sz), 64, 65, 70, 127, 128, 130, 200])
+    ra, ka = g.rows(m, l)
+    rb, kb = g.rows(n, l)
+    rc, kc = g.rows(m, n, g.rng.choice(["dense", "ones", "zero"]))
+    la, da = g.operand("A", m, l, ra, W("A"))
+    lb, db = g.operand("B", n, l, rb, W("B"))
+    lc, dc = g.operand("C", m, n, rc, W("C"))
+    clear = g.rng.getrandbits(1)
+    return _finish(la + lb + lc + ["call _mul_naive - C A B %d" % clear], da + db + dc), dict(shape=(m, l, n), kinds=(ka, kb), clear=clear)
+
+
 @op("djb", "C01", ["A", "V"])
 def b_djb(g, W, sz):
     m, l, n = g.dim(min(sz, 100)), g.dim(min(sz, 100)), g.dim(sz)
@@ -642,11 +709,20 @@ def _ech(name, mk, kcall=None):
             m = dict(shape=(nr, nc), kinds=(ka,))
             m.update(meta)
             return _finish(la + [call], da), m
+        widegap = False
         if c > 1.0 - P_WIDE:
             nr, nc = g.rng.randint(65, 100), _wide_cols(g)
+        elif c > 1.0 - P_WIDE - 0.08:
+            # nine and more words to the right of a block that holds few pivots (pivot gaps, zero column blocks): the
+            # one- and two-table kernels with their unrolled row updates over many words
+            nr, nc = g.rng.randint(40, 100), 64 * g.rng.randint(9, 17) - g.rng.choice([0, 1, 17, 40, 63])
+            widegap = True
         else:
             nr, nc = g.dim(sz), g.dim(sz * 2)
-        if g.rng.random() < 0.7:
+        if widegap:
+            ra, ka = _gen.rank_profile_rows2(g, nr, nc, g.rng.choice(["zeroblock", "gap64", "wordgap", "spread", "lowrank"]))
+            ka = "widegap/" + str(ka)
+        elif g.rng.random() < 0.7:
             ra, ka = g.rank_profile_rows(nr, nc)
         else:
             ra, ka = g.rows(nr, nc)
@@ -1020,6 +1096,11 @@ def b_kernel(g, W, sz):
         # 1100 x 1000 basis would dominate the quick tier
         n = 64 * g.rng.choice([1, 2, 3, 4, 5]) - g.rng.randint(1, 63)
     ra, ka = _ple_content(g, m, n)
+    if g.rng.random() < 0.15:
+        # full column rank: the empty-kernel early exit (NULL returned, every temporary still to be released)
+        n = min(n, m)
+        ra, ka = (_gen.rank_profile_rows2(g, m, n, "fullrank") if g.rng.random() < 0.5 else g.rows(m, n, "ident"))
+        ka = "fullcolrank/" + str(ka)
     la, da = g.operand("A", m, n, ra, W("A"))
     cut = g.rng.choice(_SCUT)
     return _finish(la + ["call kernel_left_pluq R A %d" % cut], da + ["R"]), dict(shape=(m, n), kinds=(ka,), param=cut)
